@@ -51,7 +51,7 @@ LOSSY_CALLS = ('tolower', 'toupper', 'towlower', 'towupper', 'strcasecmp', 'strn
 def lossy_calls_in(facts, g):
     """names of case-folding / truncating calls in the body of g or of a lambda written in g"""
     bodies = [g['body']] + [h['body'] for h in facts.functions if h.get('kind') == 'lambda' and h.get('body') is not None and
-                            (h.get('parent') or '').split('(')[0] == g['q']]
+                            ((h.get('parent') or '').split('(')[0] == g['q'] or (h.get('parent') or '').startswith(g['q'] + '('))]
     return sorted(set((x.get('callee') or '').split('::')[-1] for b in bodies for x in walk_all_exprs(b)
                       if x.get('k') == 'call' and (x.get('callee') or '').split('::')[-1] in LOSSY_CALLS))
 
